@@ -16,17 +16,44 @@
 (*          its two reflections; bound by the harness as a fixed point)    *)
 (*                                                                         *)
 (* ARITHMETIC  a cell is an integer symmetric positive definite reciprocal *)
-(* metric G ( = gi * scale ); Q(h) = h.G.h .  A ring is the set of allowed *)
-(* hkl with one value of Q (the harness scales the cell so that distinct Q *)
-(* are further apart than makerings' tolerance and verifies the real ring  *)
-(* table against the rings below).  Inside one ring pair Q1, Q2 are        *)
-(* constant, so cos(ha,hb) = N/sqrt(Q1 Q2) with N = ha.G.hb : sorting by   *)
-(* cosine is sorting by the integer N, blocks of equal angle are blocks of *)
-(* equal N,  |cos| < 0.98  <=>  2500 N^2 < 2401 Q1 Q2,  and                *)
-(* |cos_k - cos_obs| < cr/1000  <=>  10^6 (Nk-Nobs)^2 < cr^2 Q1 Q2.        *)
+(* metric G; Q(h) = h.G.h and d*(h) = sqrt(Q(h)) / D with the cell's own   *)
+(* D = 1000 tn/td (gi = G / D^2; D = 10: edges of 2-10 A, D = 100: the     *)
+(* same integer forms with entries ~100 describe 10 A cells).              *)
+(* RINGS are makerings' rings (unitcell.py 457-476): the hkl sorted by d*, *)
+(* a reflection joins the current ring iff its d* is less than the ring    *)
+(* tolerance (0.001 / A) above the d* of the ring's FIRST member, i.e.     *)
+(*   sqrt(Q) - sqrt(Q0) < tn/td   (Merges; exact integer test)             *)
+(* so a ring is a run of Q values [q0 .. qmax] and ringds = sqrt(q0)/D.    *)
+(* For the small forms (D = 10, Q <= 50) no two Q merge: a ring is a shell *)
+(* of one Q.  The pseudo-symmetric forms (ortM, triM, tetN, monN) have     *)
+(* rings that merge families of UNEQUAL d* (Q = 100 and 101, 65 and 69..): *)
+(* |g| of a reflection is then not the ring's d*.                          *)
+(* cos(ha,hb) = N / sqrt(D) with N = ha.G.hb and D = Q(ha) Q(hb) (D varies *)
+(* inside a merged ring pair).  Cosines are compared exactly: by sign and  *)
+(* N^2/D as fractions (FracCmp: Euclid on quotient / remainder, nothing    *)
+(* overflows 32 bits); blocks of equal angle are blocks of equal exact     *)
+(* cosine, numbered by their rank (the angle class key of a pair);         *)
+(* |cos| < 0.98  <=>  N^2/D < 2401/2500;  for equal D                      *)
+(* |cos_k - cos_obs| < cr/1000  <=>  (Nk-Nobs)^2 / D < cr^2 / 10^6, for    *)
+(* unequal D (irrational) the difference is decided with certified bounds  *)
+(* lo <= 2^21 cos <= hi (CosBnd: binary long division, integer square      *)
+(* root) - a difference the bounds cannot decide violates NoBoundaryTie.   *)
+(* The code clusters float cosines with a threshold of 1e-8: that blocks   *)
+(* of equal exact cosine are its blocks is checked by the harness (the     *)
+(* exact cosines of every replayed ring pair differ by more than 1e-6 or   *)
+(* not at all; the recorded table is compared with the exact cosines).     *)
+(*                                                                         *)
+(* NEAR-CUT RING PAIRS  filter_pairs drops every angle class with |cos| >= *)
+(* 0.98.  For every cell the ring pairs r1 <= r2 <= NRC that contain the   *)
+(* hkl pair with the largest |cos| < 0.98 and the non-collinear pair with  *)
+(* the smallest |cos| >= 0.98 are computed (CutOf, ghost cell state)       *)
+(* and become cases of their own (CutCase; the harness records them too):  *)
+(* the classes next to the cut on both sides are part of every lattice's   *)
+(* instance set (the low order rings alone have no pair beyond 0.965).     *)
 (*                                                                         *)
 (* SCALE  The instance set is Cells x Scales: the cell (id, k) has the     *)
-(* reciprocal metric gi = G * 0.01 * 4^-k, i.e. the lattice of `id` with   *)
+(* reciprocal metric gi = G / D^2 * 4^-k and the ring tolerance 0.001/2^k, *)
+(* i.e. the lattice of `id` with                                           *)
 (* every edge multiplied by the exact power of two 2^k (k = 0: edges of    *)
 (* 2-10 A; k = -3: 0.25-1.25 A; k = 7: 260-1280 A; the long-axis forms     *)
 (* tetL / hexL / ortL put a 2.5 : 1 ... 5 : 1 axis ratio on top of that).  *)
@@ -43,8 +70,9 @@
 (* two commutes with + - * / sqrt when nothing over/underflows): the       *)
 (* harness builds the cell (id, k) from the k = 0 cell by exact scaling    *)
 (* and compares bit for bit.  The integer side of the law is checked by    *)
-(* TLC on the metrics m.G, m in ScaleMul (invariant ScaleLaw: rings, Q     *)
-(* ratios, Aut+, sort keys and the 0.98 test do not move).                 *)
+(* TLC on the metrics m.G, m in ScaleMul (squares: the ring tolerance      *)
+(* scales with sqrt(m); invariant ScaleLaw: rings, Q ratios, Aut+, sort    *)
+(* keys and the 0.98 test do not move).                                    *)
 (*                                                                         *)
 (* "Indexes the same" (filter_pairs: the orientation made from the block's *)
 (* first pair with the BT matrix of pair x indexes the 15 probe vectors    *)
@@ -64,27 +92,33 @@
 (* VARIABLES                                                               *)
 (*   cs    : the case [cell (record), r1, r2, tie, bug, t, ks] (t = trace  *)
 (*           line, ks = the scale exponents the case stands for)           *)
-(*   tab   : tables of the case, computed once (Tables): [q1, q2, h1, h2,  *)
-(*           aut] (ring Q values, ring hkl sequences, Aut+(G)); in the     *)
-(*           ghost "cell" states [qs, rings, aut] of the whole cell        *)
+(*   tab   : tables of the case, computed once (Tables): [h1, h2, qh1,    *)
+(*           qh2, aut] (ring hkl sequences, their Q values, Aut+(G)); in   *)
+(*           the ghost "cell" states [rt, rings, aut, cut] of the whole    *)
+(*           cell (rt = ring table: per ring [q0, qset, qmax]; cut = the   *)
+(*           near-cut ring pairs)                                          *)
 (*   pc    : "celltab" / "cell" / "celldone" (ghost: the cell table) |     *)
 (*           "tab" (tables to be made) | "sort" |                          *)
 (*           "cluster" | "open" | "test" | "crash" | "done" | "cand" |     *)
 (*           "out" | "badtrace" | "cache" (second machine, see below)      *)
-(*   order : the sorted pairs, order[x+1] = <<N, f, ha, hb>> : c2as[x],    *)
-(*           the flat index order[x], h1[hi[x]], h2[hj[x]]                 *)
+(*   order : the sorted pairs, order[x+1] = <<N, f, ha, hb, D, rk, lo, sm>>*)
+(*           : c2as[x] = N/sqrt(D), the flat index order[x], h1[hi[x]],    *)
+(*           h2[hj[x]], and (filled in by Cluster) the rank of the pair's  *)
+(*           angle class, the bounds <<lo, hi>> of 2^21 cos, |cos| < 0.98  *)
 (*   inds  : the block ends (`inds`, 0-based as in the code)               *)
 (*   bi    : position in inds (the `for i in inds` loop), i = inds[bi]     *)
 (*   p, j  : `p` (block start) and `j` (pair under test), 0-based          *)
 (*   kept  : 0-based positions in `order` of the pairs appended to `pairs` *)
 (*   first : position in kept where the current block's gtest list starts  *)
-(*   obs, lmode, cand, ubil : orient(): N of the observed pair, lookup     *)
+(*   obs, lmode, cand, ubil : orient(): angle class of the observed pair,  *)
+(*           lookup                                                        *)
 (*           mode (0 = nearest, else crange*1000), candidate positions in  *)
 (*           kept (`best`), classes left by ubi_equiv                      *)
 (*                                                                         *)
 (* ACTIONS (one per branch of filter_pairs' loop body / stage of orient)   *)
-(*   Tables | PrintCell | SortPairs | Cluster (dc, inds; validates the     *)
-(*   order) |                                                              *)
+(*   Tables | PrintCell (near-cut ring pairs of the cell) | CutCase (a     *)
+(*   near-cut ring pair becomes a case) | SortPairs | Cluster (dc, inds;   *)
+(*   validates the order) |                                                *)
 (*   SkipBlock (|cos| >= 0.98) | KeepSingle (len(c) = 1) | KeepCrash       *)
 (*   (len(c) = 0: c.max() raises) | KeepFirst | TestSame | TestNew |       *)
 (*   CloseBlock | Finish | Lookup | Dedup                                  *)
@@ -99,7 +133,8 @@
 (* the real code (ndjson file IOEnv.TRACE_FILE, one line per ring pair:    *)
 (* {cell, r1, r2, ks, order:[[ha,hb],..]}, ks = the scales of the cell at  *)
 (* which exactly this order was recorded) is validated (ValidOrder: it is  *)
-(* a permutation of ring1 x ring2 and N never decreases) and the model is  *)
+(* a permutation of ring1 x ring2, the cosine never decreases) and the     *)
+(* model is                                                                *)
 (* run on it; the harness compares the kept list, order included.  An      *)
 (* order that is not valid ends in pc = "badtrace": the code handed its    *)
 (* filter_pairs something that is not the cosine table of the ring pair -  *)
@@ -117,64 +152,85 @@
 (*   Irredundant no two kept pairs are equivalent                          *)
 (*   NoCrash     the len(c) = 0 branch is unreachable (rings contain -h    *)
 (*               with h, so blocks have even length: EvenBlocks)           *)
-(*   BlocksExact kept pairs are in non-decreasing N; positions increase;   *)
+(*   BlocksExact kept pairs are in non-decreasing cosine; positions        *)
+(*               increase;                                                 *)
 (*               the first pair of every block with |cos| < 0.98 is kept   *)
 (*   DedupAgrees inside one block UbiEquiv = Equiv                         *)
 (*   TrueFound   at "out" (crange mode, bug = FALSE): every pair of the    *)
 (*               observed block is equivalent to a member of exactly one   *)
 (*               class; classes are disjoint and pairwise inequivalent     *)
 (*   CellLaws    Aut+(G) is a group of the expected order, nothing missed  *)
-(*               by the box; ring boxes complete                           *)
+(*               by the box; ring boxes complete up to the merge horizon   *)
+(*               of the last ring; the near-cut pairs exist and lie on     *)
+(*               their sides of the cut                                    *)
 (*   ScaleLaw    rings, Aut+, sort keys, |cos| < 0.98 of m.G = those of G  *)
+(*   NoBoundaryTie  no candidate decision of Lookup falls on the boundary  *)
+(*               or between the certified bounds                           *)
 (*   CacheFresh  an entry handed out by getanglehkls was computed under    *)
 (*               the ringtol in force                                      *)
 (*                                                                         *)
-(* BOUNDS  Cells (21 named lattices: cubic P/I/F, tetragonal P/I and a     *)
+(* BOUNDS  Cells (25 named lattices: cubic P/I/F, tetragonal P/I and a     *)
 (* pseudo-symmetric one, hexagonal P/R, orthorhombic P/C/F and a pseudo-   *)
 (* symmetric one, monoclinic P/C, rhombohedral acute/obtuse, two           *)
-(* triclinic, long-axis tetragonal / hexagonal / orthorhombic) x Scales    *)
-(* (exponents k, edges x 2^k), first NR rings, ordered ring pairs          *)
-(* (PairSel), TieRules, BugEnds, CRanges, Rots; chosen in the .cfg files.  *)
+(* triclinic, long-axis tetragonal / hexagonal / orthorhombic, and four    *)
+(* with rings merging families of unequal d*: almost tetragonal            *)
+(* orthorhombic, almost cubic triclinic, almost cubic tetragonal,          *)
+(* monoclinic with beta* = 88.3 deg) x Scales (exponents k, edges x 2^k),  *)
+(* ordered ring pairs of the first NR rings (PairSel) + the near-cut ring  *)
+(* pairs among the first NRC rings, TieRules, BugEnds, CRanges, Rots;      *)
+(* chosen in the .cfg files.                                               *)
 (***************************************************************************)
-EXTENDS ExactLA, Json, IOUtils, SequencesExt
+EXTENDS ExactLA, Json, IOUtils, SequencesExt, FiniteSetsExt
 
 CONSTANTS MODE,        \* "rule" | "trace"
           Cells,       \* set of cell records (see CellsAll)
-          NR,          \* number of rings per cell
+          NR,          \* the ordered ring pairs of the first NR rings are cases (PairSel)
+          NRC,         \* number of rings per cell (ring table; the near-cut ring pairs are searched among them)
           PairSel,     \* "all" ordered ring pairs | "upper" (r1 <= r2) | "low" (r1 <= r2 <= 3)
           TieRules,    \* subset of {"fwd", "rev"}
           BugEnds,     \* subset of BOOLEAN
           CRanges,     \* crange values * 1000 (0 = nearest mode)
           Rots,        \* set of <<ax, ay, az>> angle triples: U = Rx.Ry.Rz
-          Scales       \* set of integers k: the cell with every edge multiplied by 2^k (gi = G * 0.01 * 4^-k)
+          Scales       \* set of integers k: the cell with every edge multiplied by 2^k (gi = G / D^2 * 4^-k)
 
 (* ---------------- named lattices -------------------------------------------------------- *)
 Sym(a, b, c, d, e, f) == << <<a, f, e>>, <<f, b, d>>, <<e, d, c>> >>    \* 11 22 33 23 13 12
-C(id, G, cen, box, order) == [id |-> id, G |-> G, cen |-> cen, box |-> box, naut |-> order]
+\* box = per axis bound of the hkl box holding the first NRC rings (BoxOK3, CellLaws); naut = order of Aut+(G);
+\* tn/td = the ring tolerance in units of sqrt(Q): d* = sqrt(Q)/D with D = 1000 tn/td, makerings' 0.001 = (tn/td)/D
+C(id, G, cen, box, order, tn, td) == [id |-> id, G |-> G, cen |-> cen, box |-> box, naut |-> order, tn |-> tn, td |-> td]
 CellsAll == {
-   C("cubP",  Sym(1,1,1,0,0,0), "P", 3, 24),
-   C("cubI",  Sym(1,1,1,0,0,0), "I", 3, 24),
-   C("cubF",  Sym(1,1,1,0,0,0), "F", 3, 24),
-   C("tetP",  Sym(2,2,3,0,0,0), "P", 2, 8),
-   C("tetI",  Sym(2,2,3,0,0,0), "I", 2, 8),
-   C("tetPs", Sym(1,1,2,0,0,0), "P", 2, 8),          \* pseudo-symmetric: Q(110) = Q(001)
-   C("hexP",  Sym(2,2,3,0,0,1), "P", 2, 12),
-   C("hexR",  Sym(2,2,5,0,0,1), "R", 3, 12),
-   C("ortP",  Sym(2,3,5,0,0,0), "P", 2, 4),
-   C("ortC",  Sym(2,3,5,0,0,0), "C", 2, 4),
-   C("ortF",  Sym(2,3,5,0,0,0), "F", 3, 4),
-   C("ortPs", Sym(3,4,7,0,0,0), "P", 2, 4),          \* pseudo-symmetric: Q(110) = Q(001)
-   C("monP",  Sym(3,2,5,0,1,0), "P", 2, 2),
-   C("monC",  Sym(3,2,5,0,1,0), "C", 3, 2),
-   C("rhoP",  Sym(3,3,3,1,1,1), "P", 2, 6),
-   C("rhoO",  Sym(4,4,4,-1,-1,-1), "P", 2, 6),
-   C("triP",  Sym(4,5,7,2,1,1), "P", 2, 1),
-   C("triQ",  Sym(3,4,5,1,-1,1), "P", 2, 1),
+   C("cubP",  Sym(1,1,1,0,0,0), "P", <<3,3,3>>, 24, 1, 100),
+   C("cubI",  Sym(1,1,1,0,0,0), "I", <<5,5,5>>, 24, 1, 100),
+   C("cubF",  Sym(1,1,1,0,0,0), "F", <<6,6,6>>, 24, 1, 100),
+   C("tetP",  Sym(2,2,3,0,0,0), "P", <<2,2,2>>, 8, 1, 100),
+   C("tetI",  Sym(2,2,3,0,0,0), "I", <<4,4,3>>, 8, 1, 100),
+   C("tetPs", Sym(1,1,2,0,0,0), "P", <<3,3,2>>, 8, 1, 100),          \* pseudo-symmetric: Q(110) = Q(001)
+   C("hexP",  Sym(2,2,3,0,0,1), "P", <<3,3,2>>, 12, 1, 100),
+   C("hexR",  Sym(2,2,5,0,0,1), "R", <<5,5,2>>, 12, 1, 100),
+   C("ortP",  Sym(2,3,5,0,0,0), "P", <<3,2,1>>, 4, 1, 100),
+   C("ortC",  Sym(2,3,5,0,0,0), "C", <<3,3,2>>, 4, 1, 100),
+   C("ortF",  Sym(2,3,5,0,0,0), "F", <<5,4,3>>, 4, 1, 100),
+   C("ortPs", Sym(3,4,7,0,0,0), "P", <<3,2,2>>, 4, 1, 100),          \* pseudo-symmetric: Q(110) = Q(001)
+   C("monP",  Sym(3,2,5,0,1,0), "P", <<2,2,1>>, 2, 1, 100),
+   C("monC",  Sym(3,2,5,0,1,0), "C", <<3,4,2>>, 2, 1, 100),
+   C("rhoP",  Sym(3,3,3,1,1,1), "P", <<3,3,3>>, 6, 1, 100),
+   C("rhoO",  Sym(4,4,4,-1,-1,-1), "P", <<3,3,3>>, 6, 1, 100),
+   C("triP",  Sym(4,5,7,2,1,1), "P", <<2,2,1>>, 1, 1, 100),
+   C("triQ",  Sym(3,4,5,1,-1,1), "P", <<2,2,1>>, 1, 1, 100),
    \* long-axis forms (axis ratio 4, 4.9, 5): low order rings are the (00l) / (h00) row, one short reciprocal axis
-   C("tetL",  Sym(16,16,1,0,0,0), "P", 4, 8),        \* c = 4 a ; Q(004) = Q(100)
-   C("hexL",  Sym(8,8,1,0,0,4), "P", 3, 12),         \* c = 2.45 a ; Q(003) = Q(101)
-   C("ortL",  Sym(1,9,25,0,0,0), "P", 3, 4) }        \* a = 3 b = 5 c ; Q(300) = Q(010)
-Cells_q == { c \in CellsAll : c.id \in {"cubF", "hexP", "monP", "triP", "monC", "rhoP", "ortPs", "tetL"} }
+   C("tetL",  Sym(16,16,1,0,0,0), "P", <<1,1,7>>, 8, 1, 100),        \* c = 4 a ; Q(004) = Q(100)
+   C("hexL",  Sym(8,8,1,0,0,4), "P", <<2,2,5>>, 12, 1, 100),         \* c = 2.45 a ; Q(003) = Q(101)
+   C("ortL",  Sym(1,9,25,0,0,0), "P", <<6,2,1>>, 4, 1, 100),         \* a = 3 b = 5 c ; Q(300) = Q(010)
+   \* rings that merge families of UNEQUAL d* (differences of 0.0005 - 0.001 / A, inside makerings' tolerance):
+   \* ortM 10 / 9.95 / 8.16 A: (100)+(010), (101)+(011), (200)+(020) ... share rings (Q = 100 and 101, 250 and 251, ..)
+   C("ortM",  Sym(100,101,150,0,0,0), "P", <<2,2,2>>, 4, 1, 10),
+   \* triM 10 / 9.95 / 9.85 A, angles 1 - 2 deg off 90: (100)+(010), (01-1)+(10-1)... ; angle classes 3e-5 apart
+   C("triM",  Sym(100,101,103,1,-1,2), "P", <<2,2,2>>, 1, 1, 10),
+   \* tetN 20 / 20 / 19.6 A: every cubic shell is split 2 % in d* but stays one ring
+   C("tetN",  Sym(25,25,26,0,0,0), "P", <<3,3,2>>, 8, 1, 10),
+   \* monN 45.7 / 39.0 / 41.1 A, beta* = 88.3 deg: (h0l) and (h0-l) share rings (Q = 65 and 69, 106 and 110, ..)
+   C("monN",  Sym(30,41,37,0,1,0), "P", <<2,2,2>>, 2, 1, 4) }
+Cells_q == { c \in CellsAll : c.id \in {"cubF", "hexP", "monP", "triP", "monC", "rhoP", "ortPs", "tetL", "ortM", "triM"} }
 Cells_t == CellsAll
 Cells_tri == { c \in CellsAll : c.id \in {"triP", "triQ", "monP"} }
 CellById(id) == CHOOSE c \in CellsAll : c.id = id
@@ -193,16 +249,54 @@ ASSUME \A t \in Rots_t : IsOrthoScaled(RotNum(t), RotDen(t))
 QF(G, u, v) == Dot(u, MV(G, v))
 PD(G) == G[1][1] > 0 /\ G[1][1]*G[2][2] - G[1][2]*G[1][2] > 0 /\ Det(G) > 0
 AdjD(G) == LET A == Adj(G) IN <<A[1][1], A[2][2], A[3][3]>>
-ASSUME \A c \in CellsAll : IsSym(c.G) /\ PD(c.G)
+ASSUME \A c \in CellsAll : IsSym(c.G) /\ PD(c.G) /\ c.tn > 0 /\ c.td > c.tn
+ASSUME NR <= NRC
 \* k = -3 : edges 0.25 - 1.25 A ... k = 7 : 260 - 1280 A (tetL: a = 320 A, c = 1280 A)
 Scales_q == {-3, 0, 2, 3, 4, 5, 7}
 Scales_t == {-3, -1, 0, 2, 3, 4, 5, 7}
 ASSUME Scales \subseteq -8..12 /\ 0 \in Scales
 ScaleSeq == SetToSortSeq(Scales, <)
 \* integer multiples of the metric on which TLC checks the integer side of the scale law (m.G = the cell with
-\* edges divided by sqrt(m); 4 and 16 are members of the harness' family, 3 is not a square: any m will do)
-ScaleMul == {3, 4, 16}
-ScaledCell(c, m) == [c EXCEPT !.G = M2T(MScale(m, c.G))]
+\* edges divided by sqrt(m); squares, because the ring tolerance in units of sqrt(Q) goes with sqrt(m); 4 and 16
+\* are members of the harness' family, 9 is not)
+ScaleMul == {4, 9, 16}
+SqRoot(m) == CHOOSE r \in 1..4 : r * r = m
+ScaledCell(c, m) == [c EXCEPT !.G = M2T(MScale(m, c.G)), !.tn = c.tn * SqRoot(m)]
+
+(* ---------------- exact comparisons without overflow --------------------------------------- *)
+\* sign of a/b - c/d  (a, c >= 0; b, d > 0): Euclid's algorithm on quotients and remainders - no products
+RECURSIVE FracCmp(_, _, _, _)
+FracCmp(a, b, c, d) ==
+    LET q1 == a \div b   q2 == c \div d   r1 == a % b   r2 == c % d
+    IN IF q1 # q2 THEN (IF q1 < q2 THEN -1 ELSE 1)
+       ELSE IF r1 = 0 \/ r2 = 0 THEN (IF r1 = r2 THEN 0 ELSE IF r1 = 0 THEN -1 ELSE 1)
+       ELSE FracCmp(d, r2, b, r1)              \* r1/b ? r2/d  <=>  d/r2 ? b/r1
+ASSUME /\ FracCmp(1, 3, 2, 6) = 0 /\ FracCmp(2, 7, 3, 10) = -1 /\ FracCmp(3, 10, 2, 7) = 1 /\ FracCmp(0, 5, 0, 9) = 0
+       /\ FracCmp(2401, 2500, 9604, 10000) = 0 /\ FracCmp(46225, 46226, 46224, 46225) = 1 /\ FracCmp(7, 1, 13, 2) = 1
+\* floor(sqrt(n)), 0 <= n < 2^31 (Newton from above)
+RECURSIVE IsqN(_, _)
+IsqN(n, g) == LET g2 == (g + n \div g) \div 2 IN IF g2 >= g THEN g ELSE IsqN(n, g2)
+ISqrt(n) == IF n = 0 THEN 0 ELSE IsqN(n, Min2(n, 46340))
+ASSUME ISqrt(0) = 0 /\ ISqrt(1) = 1 /\ ISqrt(99) = 9 /\ ISqrt(100) = 10 /\ ISqrt(1073741824) = 32768 /\ ISqrt(2147395599) = 46339
+\* floor(r 2^k / b) for 0 <= r < b < 2^30 : binary long division, q = the bits so far
+RECURSIVE BinDiv(_, _, _, _)
+BinDiv(q, r, b, k) == IF k = 0 THEN q
+                      ELSE IF 2 * r >= b THEN BinDiv(2 * q + 1, 2 * r - b, b, k - 1) ELSE BinDiv(2 * q, 2 * r, b, k - 1)
+\* certified bounds of the cosine n / sqrt(d)  (n^2 <= d < 2^30):   <<lo, hi>> with lo <= 2^21 cos <= hi.
+\* X = 2^30 cos^2 lies in [x, x + 1), s = floor(sqrt(x)), x = s^2 + rem:
+\*   s + rem / (2s + 1) <= sqrt(x) <= 2^15 |cos| < sqrt(x + 1) <= s + (rem + 1) / (2s)        (times 64, floor / ceiling)
+CosBnd(n, d) == IF n = 0 THEN <<0, 0>>
+                ELSE LET x == IF n * n = d THEN 1073741824 ELSE BinDiv(0, n * n, d, 30)
+                         s == ISqrt(x)
+                         rem == x - s * s
+                         lo == 64 * s + (64 * rem) \div (2 * s + 1)
+                         hi == 64 * s + (64 * (rem + 1) + 2 * s - 1) \div (2 * s)
+                     IN IF n > 0 THEN <<lo, hi>> ELSE <<-hi, -lo>>
+ASSUME /\ CosBnd(1, 1) = <<2097152, 2097153>> /\ CosBnd(-1, 4) = <<-1048577, -1048576>> /\ CosBnd(0, 7) = <<0, 0>>
+       /\ CosBnd(1, 2)[1] <= 1482910 /\ CosBnd(1, 2)[2] >= 1482911 /\ CosBnd(1, 2)[2] - CosBnd(1, 2)[1] <= 3
+       /\ CosBnd(1, 1000000)[1] <= 2097 /\ CosBnd(1, 1000000)[2] >= 2098 /\ CosBnd(1, 1000000)[2] - CosBnd(1, 1000000)[1] <= 8
+\* |cos| < 0.98
+SmallND(n, d) == FracCmp(n * n, d, 2401, 2500) < 0
 
 Absent(cen, h) ==
   CASE cen = "P" -> FALSE
@@ -213,27 +307,59 @@ Absent(cen, h) ==
     [] cen = "R" -> (-h[1] + h[2] + h[3]) % 3 # 0
 
 Box(K) == { h \in (-K..K) \X (-K..K) \X (-K..K) : h # <<0,0,0>> }
+Box3(K) == { h \in (-K[1]..K[1]) \X (-K[2]..K[2]) \X (-K[3]..K[3]) : h # <<0,0,0>> }
 \* no vector with a coordinate beyond K has Q <= q :  h_i^2 <= Q (G^-1)_ii = Q Adj_ii / det
 BoxOK(G, K, q) == \A i \in Idx : (K + 1)*(K + 1)*Det(G) > q*AdjD(G)[i]
+BoxOK3(G, K, q) == \A i \in Idx : (K[i] + 1)*(K[i] + 1)*Det(G) > q*AdjD(G)[i]
 
-\* the n smallest members of a set of integers, ascending
-FirstN(S, n) == SetToSortSeq({ x \in S : Cardinality({ y \in S : y < x }) < n }, <)
+AllowedBox(c) == { h \in Box3(c.box) : ~Absent(c.cen, h) }
+\* makerings: a reflection joins the ring whose first member has Q = q0 iff  sqrt(q) - sqrt(q0) < tn/td, i.e.
+\* a = td^2 (q - q0) - tn^2 < 2 tn td sqrt(q0)   (the first conjunct bounds a before it is squared)
+Merges(c, q0, q) == q = q0 \/ (q > q0 /\ LET a == c.td * c.td * (q - q0) - c.tn * c.tn IN
+                       a <= 0 \/ (a < 2 * c.tn * c.td * (ISqrt(q0) + 1) /\ a * a < 4 * c.tn * c.tn * c.td * c.td * q0))
+\* the first integer beyond q0 that does not join q0's ring
+Horizon(c, q0) == CHOOSE q \in (q0 + 1)..(q0 + 400) : ~Merges(c, q0, q) /\ Merges(c, q0, q - 1)
+\* the ring table: qs = the Q values present, ascending; the next ring starts at qs[i]; n rings still wanted
+RECURSIVE Runs(_, _, _, _)
+Runs(c, qs, i, n) ==
+    IF n = 0 \/ i > Len(qs) THEN <<>>
+    ELSE LET e == i + Cardinality({ k \in i..Len(qs) : Merges(c, qs[i], qs[k]) }) - 1
+         IN << [q0 |-> qs[i], qmax |-> qs[e], qset |-> { qs[k] : k \in i..e }] >> \o Runs(c, qs, e + 1, n - 1)
+RingTab(c) == Runs(c, SetToSortSeq({ QF(c.G, h, h) : h \in AllowedBox(c) }, <), 1, NRC)
+\* the ring with Q in qset, in TLC's (deterministic) enumeration order of the set
+RingSeq(c, qset) == SetToSeq({ h \in AllowedBox(c) : QF(c.G, h, h) \in qset })
+QSeq(G, hs) == [i \in DOMAIN hs |-> QF(G, hs[i], hs[i])]
 
-AllowedBox(c) == { h \in Box(c.box) : ~Absent(c.cen, h) }
-RingQs(c) == FirstN({ QF(c.G, h, h) : h \in AllowedBox(c) }, NR)
-\* the ring with Q = q, in TLC's (deterministic) enumeration order of the set
-RingSeq(c, q) == SetToSeq({ h \in AllowedBox(c) : QF(c.G, h, h) = q })
+(* ---------------- the ring pairs next to the 0.98 cut -------------------------------------------- *)
+\* cos^2 = N^2 / D of every pair of two rings, as <<N^2, D>>
+Cos2Set(G, ha, qa, hb, qb) == { LET n == QF(G, ha[i], hb[k]) IN <<n * n, qa[i] * qb[k]>> : i \in DOMAIN ha, k \in DOMAIN hb }
+BelowCut(f) == FracCmp(f[1], f[2], 2401, 2500) < 0
+FracMax(S) == FoldSet(LAMBDA f, b : IF FracCmp(f[1], f[2], b[1], b[2]) > 0 THEN f ELSE b, <<0, 1>>, S)
+FracMin(S) == FoldSet(LAMBDA f, b : IF FracCmp(f[1], f[2], b[1], b[2]) < 0 THEN f ELSE b, <<1, 1>>, S)
+\* per ring pair r1 <= r2: the largest cos^2 below the cut and the smallest at or above it that is not collinear (<<1,1>>: none)
+CutTable(G, rings, rq) ==
+    { LET S == Cos2Set(G, rings[rp[1]], rq[rp[1]], rings[rp[2]], rq[rp[2]])
+      IN << rp, FracMax({ f \in S : BelowCut(f) }), FracMin({ f \in S : ~BelowCut(f) /\ f[1] < f[2] }) >>
+      : rp \in { rp \in (1..NRC) \X (1..NRC) : rp[1] <= rp[2] } }
+CutOf(ct) == LET lo == FracMax({ t[2] : t \in ct })
+                 hi == FracMin({ t[3] : t \in ct })
+                 \* (when several ring pairs hold the extreme class: the one of lowest order, r2 first)
+                 First(S) == { rp \in S : \A o \in S : rp[2] < o[2] \/ (rp[2] = o[2] /\ rp[1] <= o[1]) }
+             IN [lo |-> lo, hi |-> hi,
+                 pairs |-> First({ t[1] : t \in { t \in ct : FracCmp(t[2][1], t[2][2], lo[1], lo[2]) = 0 } })
+                           \cup First({ t[1] : t \in { t \in ct : hi[1] < hi[2] /\ FracCmp(t[3][1], t[3][2], hi[1], hi[2]) = 0 } })]
 
 (* ---------------- Aut+(G) by brute force ------------------------------------------------------- *)
 AutBox(G) == LET q == Max2(G[1][1], Max2(G[2][2], G[3][3]))
              IN CHOOSE K \in 1..12 : BoxOK(G, K, q) /\ \A K2 \in 1..(K - 1) : ~BoxOK(G, K2, q)
-AutP(G) == LET K == AutBox(G)
-               V(i) == { v \in Box(K) : QF(G, v, v) = G[i][i] }
+AutPK(G, K) ==
+           LET V(i) == { v \in Box(K) : QF(G, v, v) = G[i][i] }
            IN { M2T(Transpose(<<c1, c2, c3>>)) : <<c1, c2, c3>> \in
                   { t \in V(1) \X V(2) \X V(3) :
                        /\ QF(G, t[1], t[2]) = G[1][2] /\ QF(G, t[1], t[3]) = G[1][3]
                        /\ QF(G, t[2], t[3]) = G[2][3]
                        /\ Det(<<t[1], t[2], t[3]>>) = 1 } }
+AutP(G) == AutPK(G, AutBox(G))
 \* independent statement of membership (entries of M, not columns): M^T G M = G, det = 1
 IsAut(G, M) == M2T(MM(MM(Transpose(M), G), M)) = G /\ Det(M) = 1
 AutGroupFor(c, A) ==
@@ -260,23 +386,35 @@ vars == <<cs, tab, pc, order, inds, bi, p, j, kept, first, obs, lmode, cand, ubi
 \* The tables of a case are computed once, by the first action (Tables: TLC generates initial states in one thread,
 \* successors in all workers), and carried in the state variable `tab` (TLC evaluates definitions lazily and would
 \* recompute rings and group in every state):
-\*   ghost "cell" states : [qs, rings, aut]      case states : [q1, q2, h1, h2, aut]
-\* (`\E v \in {e}` binds v to the evaluated e.)
-CellTab(c) == \E qs \in {RingQs(c)} : \E A \in {AutP(c.G)} :
-                 tab' = [qs |-> qs, rings |-> [r \in 1..NR |-> RingSeq(c, qs[r])], aut |-> A]
-CaseTab(c, r1, r2) == \E qs \in {RingQs(c)} : \E A \in {AutP(c.G)} :
-                 tab' = [q1 |-> qs[r1], q2 |-> qs[r2], h1 |-> RingSeq(c, qs[r1]), h2 |-> RingSeq(c, qs[r2]), aut |-> A]
+\*   ghost "cell" states : [rt, rings, rq, aut, cut]      case states : [q01, q02, h1, h2, qh1, qh2, aut]
+\* (`\E v \in {e}` binds v to the evaluated e.)  rq / qh = the Q of every member of a ring (they differ in a merged ring);
+\* cut is filled in by the next action (PrintCell), from the evaluated tables
+CellTab(c) == \E rt \in {RingTab(c)} : \E A \in {AutP(c.G)} :
+                 \E rings \in {[r \in 1..Len(rt) |-> RingSeq(c, rt[r].qset)]} :
+                 tab' = [rt |-> rt, rings |-> rings, rq |-> [r \in 1..Len(rt) |-> QSeq(c.G, rings[r])], aut |-> A,
+                         cut |-> [lo |-> <<0, 1>>, hi |-> <<1, 1>>, pairs |-> {}]]
+CaseTab(c, r1, r2) == \E rt \in {RingTab(c)} : \E A \in {AutP(c.G)} :
+                 \E h1 \in {RingSeq(c, rt[r1].qset)} : \E h2 \in {RingSeq(c, rt[r2].qset)} :
+                 tab' = [q01 |-> rt[r1].q0, q02 |-> rt[r2].q0, h1 |-> h1, h2 |-> h2,
+                         qh1 |-> QSeq(c.G, h1), qh2 |-> QSeq(c.G, h2), aut |-> A]
 
 cell == cs.cell                             \* the cell record
 G0 == cell.G
-Q1 == tab.q1
-Q2 == tab.q2
 N == Len(order)
-\* order[x+1] = <<N, f, ha, hb>> : c2as[x], order[x] (flat index), h1[hi[x]], h2[hj[x]]  (0-based x as in the code)
+\* order[x+1] = <<N, f, ha, hb, D, rk, lo, sm>> : c2as[x] = N / sqrt(D), order[x] (flat index), h1[hi[x]], h2[hj[x]]
+\* (0-based x as in the code); rk, lo, sm are filled in by Cluster
 Ord(x) == <<order[x + 1][3], order[x + 1][4]>>
-NK(x) == order[x + 1][1]                    \* the sort key N = ha.G.hb = cos * sqrt(Q1 Q2)
-SmallN(n) == 2500*n*n < 2401*Q1*Q2          \* abs(cos) < 0.98
-Small(x) == SmallN(NK(x))
+NN(x) == order[x + 1][1]                    \* N = ha.G.hb
+DD(x) == order[x + 1][5]                    \* D = Q(ha) Q(hb) : cos = N / sqrt(D)
+NK(x) == order[x + 1][6]                    \* the angle class of the pair: rank of its cosine among the distinct cosines, 1-based
+LO(x) == order[x + 1][7][1]                 \* LO <= 2^21 cos <= HI
+HI(x) == order[x + 1][7][2]
+Small(x) == order[x + 1][8]                 \* abs(cos) < 0.98
+\* sign of cos(u) - cos(v), exact
+CosCmp(u, v) == IF u[5] = v[5] THEN Sgn(u[1] - v[1])
+                ELSE IF Sgn(u[1]) # Sgn(v[1]) THEN Sgn(Sgn(u[1]) - Sgn(v[1]))
+                ELSE IF u[1] = 0 THEN 0
+                ELSE Sgn(u[1]) * FracCmp(u[1] * u[1], u[5], v[1] * v[1], v[5])
 
 Equiv(x, y) == \E M \in tab.aut : MV(M, x[1]) = y[1] /\ MV(M, x[2]) = y[2]
 \* same orientation from the same observed g1, g2 (any angle): triad of x is mapped on triad of y
@@ -288,26 +426,28 @@ UbiEquiv(x, y) == \E M \in tab.aut :
 \* the pairs in mgrid order (flat index f = i*len(h2) + j), tagged with their key and flat index
 Tagged ==
     [f \in 1..(Len(tab.h1)*Len(tab.h2)) |->
-        << QF(G0, tab.h1[((f - 1) \div Len(tab.h2)) + 1], tab.h2[((f - 1) % Len(tab.h2)) + 1]), f,
-           tab.h1[((f - 1) \div Len(tab.h2)) + 1], tab.h2[((f - 1) % Len(tab.h2)) + 1] >>]
-LessFwd(u, v) == u[1] < v[1] \/ (u[1] = v[1] /\ u[2] < v[2])
-LessRev(u, v) == u[1] < v[1] \/ (u[1] = v[1] /\ u[2] > v[2])
+        LET i == ((f - 1) \div Len(tab.h2)) + 1   k == ((f - 1) % Len(tab.h2)) + 1
+        IN << QF(G0, tab.h1[i], tab.h2[k]), f, tab.h1[i], tab.h2[k], tab.qh1[i] * tab.qh2[k], 0, <<0, 0>>, FALSE >>]
+LessFwd(u, v) == LET c == CosCmp(u, v) IN c < 0 \/ (c = 0 /\ u[2] < v[2])
+LessRev(u, v) == LET c == CosCmp(u, v) IN c < 0 \/ (c = 0 /\ u[2] > v[2])
 RuleOrder(tie) == IF tie = "fwd" THEN SortSeq(Tagged, LessFwd) ELSE SortSeq(Tagged, LessRev)
 TraceOrder(t) == [x \in DOMAIN Traces[t].order |->
-                       << QF(G0, Traces[t].order[x][1], Traces[t].order[x][2]), x,
-                          Traces[t].order[x][1], Traces[t].order[x][2] >>]
+                    LET a == Traces[t].order[x][1]   b == Traces[t].order[x][2]
+                    IN << QF(G0, a, b), x, a, b, QF(G0, a, a) * QF(G0, b, b), 0, <<0, 0>>, FALSE >>]
 
-\* a (recorded) order is acceptable iff it is a permutation of ring1 x ring2 in non-decreasing N
+\* a (recorded) order is acceptable iff it is a permutation of ring1 x ring2 in non-decreasing cosine
 ValidOrder == \E S1 \in {Range(tab.h1)} : \E S2 \in {Range(tab.h2)} :
     /\ Len(order) = Len(tab.h1) * Len(tab.h2)
     /\ \A x \in DOMAIN order : order[x][3] \in S1 /\ order[x][4] \in S2
     /\ Cardinality({ <<order[x][3], order[x][4]>> : x \in DOMAIN order }) = Len(order)
-    /\ \A x \in 1..(Len(order) - 1) : order[x][1] <= order[x + 1][1]
+    /\ \A x \in 1..(Len(order) - 1) : CosCmp(order[x], order[x + 1]) <= 0
 
 \* inds = list(np.arange(1, len(dc)+1)[dc]) + [len(c2as) - 1]      (filter_pairs 677-678)
 IndsNow(bug) ==
-    SortSeq(SetToSeq({ i \in 1..(Len(order) - 1) : order[i + 1][1] > order[i][1] }), <)
+    SortSeq(SetToSeq({ i \in 1..(Len(order) - 1) : CosCmp(order[i], order[i + 1]) < 0 }), <)
        \o << IF bug THEN Len(order) - 1 ELSE Len(order) >>
+\* the angle class (1-based rank of the block) of position x (0-based), from the block ends ii
+RankOf(ii, x) == 1 + Cardinality({ k \in 1..Len(ii) : ii[k] <= x })
 
 Blank == /\ order = <<>> /\ inds = <<>> /\ bi = 0 /\ p = 0 /\ j = 0 /\ kept = <<>> /\ first = 0
          /\ obs = 0 /\ lmode = 0 /\ cand = <<>> /\ ubil = {}
@@ -329,8 +469,16 @@ Tables == \/ /\ pc = "celltab" /\ CellTab(cs.cell) /\ pc' = "cell"
              /\ UNCHANGED <<cs, order, inds, bi, p, j, kept, first, keepLater>>
           \/ /\ pc = "tab" /\ CaseTab(cs.cell, cs.r1, cs.r2) /\ pc' = "sort"
              /\ UNCHANGED <<cs, order, inds, bi, p, j, kept, first, keepLater>>
+\* the ring pairs holding the angle classes next to the 0.98 cut, from the cell's tables
 PrintCell == /\ pc = "cell" /\ pc' = "celldone"
-             /\ UNCHANGED <<cs, tab, order, inds, bi, p, j, kept, first, keepLater>>
+             /\ \E ct \in {CutTable(G0, tab.rings, tab.rq)} : tab' = [tab EXCEPT !.cut = CutOf(ct)]
+             /\ UNCHANGED <<cs, order, inds, bi, p, j, kept, first, keepLater>>
+\* ... each of them is a case (MODE "rule"; in MODE "trace" the harness records them)
+CutCase == /\ pc = "celldone" /\ MODE = "rule"
+           /\ \E rp \in tab.cut.pairs : \E tie \in TieRules : \E bug \in BugEnds :
+                 cs' = [cs EXCEPT !.r1 = rp[1], !.r2 = rp[2], !.tie = tie, !.bug = bug]
+           /\ pc' = "tab" /\ tab' = <<>>
+           /\ UNCHANGED <<order, inds, bi, p, j, kept, first, keepLater>>
 
 \* order = np.argsort(c2a.ravel()); c2as = ...; hi, hj = ...      (filter_pairs 667-671)
 SortPairs ==
@@ -339,12 +487,18 @@ SortPairs ==
     /\ pc' = "cluster"
     /\ UNCHANGED <<cs, tab, inds, bi, p, j, kept, first, keepLater>>
 \* dc = ...; inds = ...; p = 0                                     (filter_pairs 677-679)
+\* (here the model also numbers the angle classes and evaluates, once per pair, the cosine bound and the 0.98 test)
 Cluster ==
     /\ pc = "cluster"
     /\ IF ValidOrder
-       THEN inds' = IndsNow(cs.bug) /\ bi' = 1 /\ pc' = "open"
-       ELSE pc' = "badtrace" /\ UNCHANGED <<inds, bi>>
-    /\ UNCHANGED <<cs, tab, order, p, j, kept, first, keepLater>>
+       THEN \E ii \in {IndsNow(FALSE)} :
+              /\ inds' = IF cs.bug THEN [ii EXCEPT ![Len(ii)] = Len(order) - 1] ELSE ii
+              /\ order' = [x \in DOMAIN order |->
+                             << order[x][1], order[x][2], order[x][3], order[x][4], order[x][5],
+                                RankOf(ii, x - 1), CosBnd(order[x][1], order[x][5]), SmallND(order[x][1], order[x][5]) >>]
+              /\ bi' = 1 /\ pc' = "open"
+       ELSE pc' = "badtrace" /\ UNCHANGED <<inds, bi, order>>
+    /\ UNCHANGED <<cs, tab, p, j, kept, first, keepLater>>
 
 InLoop == pc = "open" /\ bi <= Len(inds)
 I == inds[bi]
@@ -368,7 +522,7 @@ KeepFirst  == /\ InLoop /\ Small(p) /\ I - p > 1
               /\ j' = p + 1 /\ pc' = "test"
               /\ UNCHANGED <<cs, tab, order, inds, bi, p, keepLater>>
 KnownHere(x) == \E k \in first..Len(kept) : Equiv(Ord(kept[k]), Ord(x))
-\* (M in Aut+ preserves the form, so equivalent pairs have equal N: the N test below only saves time)
+\* (M in Aut+ preserves the form, so equivalent pairs have equal N and D, hence equal cosine)
 \* npk == 15 for some gt: newpair = False                          (filter_pairs 711-717)
 TestSame   == /\ pc = "test" /\ j < I /\ KnownHere(j)
               /\ j' = j + 1
@@ -386,19 +540,35 @@ Finish     == /\ pc = "open" /\ bi > Len(inds)
               /\ UNCHANGED <<cs, tab, order, inds, bi, p, j, kept, first, keepLater>>
 
 (* ---------------- orient(): lookup and de-duplication -------------------------------------------- *)
-KeptN(k) == NK(kept[k])
-BlockNs == { NK(x) : x \in 0..(N - 1) }
+KeptN(k) == NK(kept[k])                     \* angle class of the k-th kept pair
+BlockNs == 1..Len(inds)                     \* the angle classes
+BlockStart(b) == IF b = 1 THEN 0 ELSE inds[b - 1]      \* position of the first pair of class b
 \* crange > 0 : best = arange(len(c2ab))[abs(c2ab - costheta) < crange]       (orient 534-535)
+\*   x, y positions; equal D: (Nx - Ny)^2 / D < cr^2 / 10^6, exact.  Unequal D: 2^21 |cos x - cos y| lies in
+\*   [DMin, DMax] and 2^21 cr/1000 = cr 262144/125: certainly inside / certainly outside / undecided
+DN2(x, y) == (NN(x) - NN(y)) * (NN(x) - NN(y))
+DMin(x, y) == Max2(0, Max2(LO(x) - HI(y), LO(y) - HI(x)))
+DMax(x, y) == Max2(HI(x) - LO(y), HI(y) - LO(x))
+CertIn(x, y, cr)  == DMax(x, y) * 125 < cr * 262144
+CertOut(x, y, cr) == DMin(x, y) * 125 >= cr * 262144
+InRangeX(x, y, cr) == IF DD(x) = DD(y) THEN FracCmp(DN2(x, y), DD(x), cr * cr, 1000000) < 0 ELSE CertIn(x, y, cr)
+Decided(x, y, cr)  == IF DD(x) = DD(y) THEN FracCmp(DN2(x, y), DD(x), cr * cr, 1000000) # 0
+                      ELSE CertIn(x, y, cr) \/ CertOut(x, y, cr)
 \* else       : the nearest entry (searchsorted + neighbour comparison, 539-544); entries of the
-\*              observed block are at distance ~1e-16 of each other: any of them may be returned
-InRange(k, n, cr) == 1000000*(KeptN(k) - n)*(KeptN(k) - n) < cr*cr*Q1*Q2
-Nearest(n) == LET d(k) == Abs(KeptN(k) - n)
-              IN { k \in DOMAIN kept : \A k2 \in DOMAIN kept : d(k) <= d(k2) }
+\*              observed block are at distance ~1e-16 of each other: any of them may be returned.
+\*   When no kept entry has the observed cosine (written block ends only) the nearest other entry: exact for
+\*   equal D, else every entry the certified bounds cannot exclude
+Nearest(b) == LET xo == BlockStart(b)
+                  E == { k \in DOMAIN kept : KeptN(k) = b }
+              IN IF E # {} THEN E
+                 ELSE IF \A k \in DOMAIN kept : DD(kept[k]) = DD(xo)
+                      THEN { k \in DOMAIN kept : \A k2 \in DOMAIN kept : DN2(kept[k], xo) <= DN2(kept[k2], xo) }
+                      ELSE { k \in DOMAIN kept : \A k2 \in DOMAIN kept : DMin(kept[k], xo) <= DMax(kept[k2], xo) }
 Lookup == /\ pc = "done" /\ kept # <<>>
-          /\ \E n \in { m \in BlockNs : SmallN(m) } : \E cr \in CRanges :
-               /\ obs' = n /\ lmode' = cr
-               /\ cand' = IF cr = 0 THEN SetToSortSeq(Nearest(n), <)
-                          ELSE SetToSortSeq({ k \in DOMAIN kept : InRange(k, n, cr) }, <)
+          /\ \E b \in { m \in BlockNs : Small(BlockStart(m)) } : \E cr \in CRanges :
+               /\ obs' = b /\ lmode' = cr
+               /\ cand' = IF cr = 0 THEN SetToSortSeq(Nearest(b), <)
+                          ELSE SetToSortSeq({ k \in DOMAIN kept : InRangeX(kept[k], BlockStart(b), cr) }, <)
           /\ pc' = "cand"
           /\ UNCHANGED <<cs, tab, order, inds, bi, p, j, kept, first, ubil>>
 \* ubi_equiv: one orientation per class (nearest mode: the single candidate, whichever it was)
@@ -409,7 +579,7 @@ Dedup  == /\ pc = "cand"
           /\ pc' = "out"
           /\ UNCHANGED <<cs, tab, order, inds, bi, p, j, kept, first, obs, lmode, cand>>
 
-Next == Tables \/ PrintCell \/ SortPairs \/ Cluster \/ SkipBlock \/ KeepSingle \/ KeepCrash \/ KeepFirst
+Next == Tables \/ PrintCell \/ CutCase \/ SortPairs \/ Cluster \/ SkipBlock \/ KeepSingle \/ KeepCrash \/ KeepFirst
         \/ TestSame \/ TestNew \/ CloseBlock \/ Finish \/ Lookup \/ Dedup
 Spec == Init /\ [][Next]_vars
 
@@ -458,31 +628,42 @@ DedupAgrees == pc = "done" =>
                  \A x, y \in 0..(N - 1) : (NK(x) = NK(y) /\ Small(x)) =>
                         (UbiEquiv(Ord(x), Ord(y)) <=> Equiv(Ord(x), Ord(y)))
 \* equal angle blocks are closed under Friedel inversion of both members: even length
-EvenBlocks  == pc = "done" => \A n \in BlockNs : Cardinality({ x \in 0..(N - 1) : NK(x) = n }) % 2 = 0
+EvenBlocks  == pc = "done" => \A b \in 1..Len(inds) :
+                  ((IF b = Len(inds) THEN N ELSE inds[b]) - BlockStart(b)) % 2 = 0
 TrueFound   == (pc = "out" /\ lmode > 0 /\ ~cs.bug) =>
                  /\ \A x \in 0..(N - 1) : NK(x) = obs =>
                       Cardinality({ cl \in ubil : \E k \in cl : Equiv(Ord(kept[k]), Ord(x)) }) = 1
                  /\ \A c1, c2 \in ubil : c1 # c2 =>
                       \A k1 \in c1, k2 \in c2 : ~UbiEquiv(Ord(kept[k1]), Ord(kept[k2]))
                  /\ \A c1, c2 \in ubil : c1 # c2 => c1 \cap c2 = {}
-\* constant-level laws, evaluated once per cell (in the ghost "cell" states)
-CellLaws == pc = "celldone" => /\ Len(tab.qs) = NR /\ BoxOK(G0, cell.box, tab.qs[NR])
+\* constant-level laws, evaluated once per cell (in the ghost "cell" states): the hkl box holds every reflection up to
+\* the first Q that cannot join the last ring; Aut+; the near-cut classes lie on their sides of the cut
+CellLaws == pc = "celldone" => /\ Len(tab.rt) = NRC
+                               /\ BoxOK3(G0, cell.box, Horizon(cell, tab.rt[NRC].q0))
+                               /\ \A r \in 1..NRC : tab.rings[r] # <<>> /\ tab.rt[r].qmax < Horizon(cell, tab.rt[r].q0)
                                /\ AutGroupFor(cell, tab.aut)
-\* the integer side of the scale law, per cell: on the metric m.G the ring Q values are m times those of G, the
-\* rings are the same sets in the same enumeration, Aut+ is the same group, every sort key is m times the key
-\* (same order, same blocks) and the |cos| < 0.98 test gives the same answer
-ScaleLaw == pc = "celldone" => \A m \in ScaleMul : \E c2 \in {ScaledCell(cell, m)} : \E qs2 \in {RingQs(c2)} :
-               /\ qs2 = [r \in 1..NR |-> m * tab.qs[r]]
-               /\ \A r \in 1..NR : RingSeq(c2, qs2[r]) = tab.rings[r]
-               /\ AutP(c2.G) = tab.aut
-               /\ \A r1, r2 \in 1..NR : \A a \in Range(tab.rings[r1]), b \in Range(tab.rings[r2]) :
-                     \E n \in {QF(G0, a, b)} :
-                       /\ QF(c2.G, a, b) = m * n
-                       /\ (2500*(m*n)*(m*n) < 2401*qs2[r1]*qs2[r2]) <=> (2500*n*n < 2401*tab.qs[r1]*tab.qs[r2])
+                               /\ tab.cut.pairs # {} /\ \A rp \in tab.cut.pairs : rp[1] <= rp[2] /\ rp[2] <= NRC
+                               /\ BelowCut(tab.cut.lo) /\ ~BelowCut(tab.cut.hi)
+\* the integer side of the scale law, per cell: on the metric m.G (ring tolerance times sqrt(m)) the ring Q values are
+\* m times those of G, the rings are the same sets in the same enumeration, Aut+ is the same group, every N is m times
+\* and every D m^2 times the value on G (same cosines: same order, same blocks) and the |cos| < 0.98 test gives the
+\* same answer (pairs: the ring pairs of the first NR rings and the near-cut ring pairs)
+ScaleLaw == pc = "celldone" => \A m \in ScaleMul : \E c2 \in {ScaledCell(cell, m)} : \E rt2 \in {RingTab(c2)} :
+               /\ Len(rt2) = NRC
+               /\ \A r \in 1..NRC : /\ rt2[r].q0 = m * tab.rt[r].q0 /\ rt2[r].qmax = m * tab.rt[r].qmax
+                                      /\ rt2[r].qset = { m * q : q \in tab.rt[r].qset }
+                                      /\ RingSeq(c2, rt2[r].qset) = tab.rings[r]
+               /\ AutPK(c2.G, AutBox(G0)) = tab.aut
+               /\ \A rp \in ((1..NR) \X (1..NR)) \cup tab.cut.pairs :
+                     \A i \in DOMAIN tab.rings[rp[1]], k \in DOMAIN tab.rings[rp[2]] :
+                       \E a \in {tab.rings[rp[1]][i]} : \E b \in {tab.rings[rp[2]][k]} :
+                       \E n \in {QF(G0, a, b)} : \E d \in {tab.rq[rp[1]][i] * tab.rq[rp[2]][k]} :
+                         /\ QF(c2.G, a, b) = m * n
+                         /\ QF(c2.G, a, a) * QF(c2.G, b, b) = m * m * d
+                         /\ SmallND(m * n, m * m * d) <=> SmallND(n, d)
 \* the harness' crange values never put a kept pair exactly on the boundary |cos_k - cos_obs| = crange
-\* (there the float comparison of the code would be decided by rounding)
-NoBoundaryTie == pc = "cand" => \A k \in DOMAIN kept :
-                    lmode = 0 \/ 1000000*(KeptN(k) - obs)*(KeptN(k) - obs) # lmode*lmode*Q1*Q2
+\* (there the float comparison of the code would be decided by rounding), nor between the certified bounds
+NoBoundaryTie == pc = "cand" => \A k \in DOMAIN kept : lmode = 0 \/ Decided(kept[k], BlockStart(obs), lmode)
 TypeOK == /\ pc \in {"cache", "celltab", "tab", "cell", "celldone", "sort", "cluster", "open", "test", "crash", "done", "cand", "out", "badtrace"}
           /\ pc \in {"open", "test"} => (p <= N /\ (bi <= Len(inds) => p <= I))
 
@@ -490,14 +671,17 @@ TypeOK == /\ pc \in {"cache", "celltab", "tab", "cell", "celldone", "sort", "clu
 Seq2(S) == SetToSortSeq(S, <)
 EmitCell == pc = "celldone" =>
    PrintT("@@" \o ToJson([kind |-> "cell", cell |-> cs.cell.id, G |-> cell.G, cen |-> cell.cen,
-        qs |-> tab.qs, rings |-> tab.rings, aut |-> SetToSeq(tab.aut), scales |-> ScaleSeq,
+        tn |-> cell.tn, td |-> cell.td, qs |-> [r \in 1..NRC |-> tab.rt[r].q0],
+        qsets |-> [r \in 1..NRC |-> SetToSortSeq(tab.rt[r].qset, <)], rings |-> tab.rings,
+        cut |-> SetToSeq(tab.cut.pairs), cutlo |-> tab.cut.lo, cuthi |-> tab.cut.hi,
+        aut |-> SetToSeq(tab.aut), scales |-> ScaleSeq,
         rots |-> SetToSeq({ [num |-> RotNum(t), den |-> RotDen(t)] : t \in Rots })]))
 EmitDone == pc = "done" =>
    PrintT("@@" \o ToJson([kind |-> "kept", cell |-> cs.cell.id, r1 |-> cs.r1, r2 |-> cs.r2, tie |-> cs.tie,
-        bug |-> cs.bug, t |-> cs.t, ks |-> cs.ks, n |-> N, q1 |-> Q1, q2 |-> Q2, inds |-> inds,
+        bug |-> cs.bug, t |-> cs.t, ks |-> cs.ks, n |-> N, q1 |-> tab.q01, q2 |-> tab.q02, inds |-> inds,
         kept |-> kept, keptpairs |-> [k \in DOMAIN kept |-> Ord(kept[k])],
         keptn |-> [k \in DOMAIN kept |-> KeptN(k)],
-        nk |-> [x \in 1..N |-> NK(x - 1)],
+        nk |-> [x \in 1..N |-> NK(x - 1)], nn |-> [x \in 1..N |-> NN(x - 1)], dd |-> [x \in 1..N |-> DD(x - 1)],
         small |-> [x \in 1..N |-> IF Small(x - 1) THEN 1 ELSE 0],
         reps |-> [x \in 1..N |-> Seq2(RepsOf(x - 1))],
         complete |-> CompleteNow, irredundant |-> IrredundantNow]))
